@@ -251,8 +251,24 @@ func c19CellRequests(s *c19Schema, evs [][]c19Ev, nodes []*c19Node) []string {
 // L2 (writer): file cells against the level mirror, for a file written by a raw write path
 func c19CheckLevels(ctx *core.Ctx, p *c19Pending, shape string, s *c19Schema, data []byte, wname string,
 	evs [][]c19Ev, nodes []*c19Node, detail func(map[string]any) map[string]any) {
-	if s.kind == "none" || !strings.HasPrefix(wname, "raw-") {
-		return // an unshredded group has a required value column; native paths order object fields themselves
+	if s.kind == "none" {
+		return // an unshredded group has a required value column
+	}
+	// the raw paths decode the caller's bytes (fields come out sorted): levels and values are determined;
+	// the Go-native and columnar paths order object fields themselves: levels and null-ness only
+	masked := !strings.HasPrefix(wname, "raw-")
+	mask := func(cs []c19Cell) []c19Cell {
+		if !masked {
+			return cs
+		}
+		out := make([]c19Cell, len(cs))
+		for i, c := range cs {
+			if c.pay != "-" {
+				c.pay = "v"
+			}
+			out[i] = c
+		}
+		return out
 	}
 	reqs := c19CellRequests(s, evs, nodes)
 	if len(reqs) == 0 {
@@ -285,7 +301,7 @@ func c19CheckLevels(ctx *core.Ctx, p *c19Pending, shape string, s *c19Schema, da
 			}
 			sort.Strings(paths)
 			for _, path := range paths {
-				got, want := c19CellsText(fileCols[path]), c19CellsText(model[path])
+				got, want := c19CellsText(mask(fileCols[path])), c19CellsText(mask(model[path]))
 				if got != want {
 					ctx.Fail("L2", "shred-levels "+wname+" under="+shape+" schema="+s.kind,
 						"leaf column "+path+" does not hold the (definition level, repetition level, value) cells the level mirror of the shredding writer puts there",
@@ -293,7 +309,7 @@ func c19CheckLevels(ctx *core.Ctx, p *c19Pending, shape string, s *c19Schema, da
 					return
 				}
 			}
-			ctx.Hist("shred.l2", "column levels compared under="+shape)
+			ctx.Hist("shred.l2", map[bool]string{false: "column levels and values", true: "column levels"}[masked]+" compared under="+shape)
 		})
 	}
 }
